@@ -160,12 +160,6 @@ pub fn commit_cs<SP: StorageProvider>(r: &mut Replica<SP>, trx: Trx<SP>) -> Resu
     r.client.commit(trx, &mut r.sink, &mut r.buffers, CountSpill::new)
 }
 
-/// The F1-family Bug-assert (being repaired under C06/C09): reported as a note, not as a panic
-/// of the braid properties.
-pub fn is_f1_panic(msg: &str) -> bool {
-    msg.contains("trx has perspective when has phead")
-}
-
 // ---------------------------------------------------------------------------------- shaped DAGs
 
 fn basic(rng: &mut Rng, lo: u32, hi: u32) -> Priority {
